@@ -32,6 +32,8 @@ ALPHABET = ["a", '"', "'", "\\", "n", "é", "0"]
 PREFIXES = ["", "L", "u8", "u", "U"]
 MAXBODY = 3
 PROTOCOLS = list(range(2, pickle.HIGHEST_PROTOCOL + 1))
+HISTORY_DEEPEST = 300
+HISTORY_MAX_CHARS = 3000
 ATTR_MODES = ["unique-string", "None", "[]", "['a','b']", "nasty-string"]
 COORD_MODES = ["Coord(file,line,column)", "Coord(file,line)", "None"]
 NASTY = "q\"u'o\\t\\\\e\n\té中\x00 end"
@@ -170,8 +172,9 @@ def features(root):
     return f
 
 
-def tree_problems(root, stats):
-    """[(signature, detail)] for one tree."""
+def tree_problems(root, stats, light=False):
+    """[(signature, detail)] for one tree.  light: structural comparisons only
+    (repr/eval, pickle HIGHEST, deepcopy), used by the history family."""
     from pycparser import c_ast
 
     out = []
@@ -206,7 +209,7 @@ def tree_problems(root, stats):
     except Exception as ex:  # noqa
         out.append((f"repr-eval:{_exc_what(ex)}", f"{ex!r:.200}"))
     # -- pickle --------------------------------------------------------------
-    for proto in PROTOCOLS:
+    for proto in (PROTOCOLS[-1:] if light else PROTOCOLS):
         try:
             p = pickle.loads(pickle.dumps(root, proto))
             stats["rebuilds"] += 1
@@ -232,6 +235,8 @@ def tree_problems(root, stats):
         stats["python_limit"] += 1
     except Exception as ex:  # noqa
         out.append((f"deepcopy:{_exc_what(ex)}", f"{ex!r:.200}"))
+    if light:
+        return out
     # -- generated text ------------------------------------------------------
     try:
         g0 = ("text", core.generate(root))
@@ -306,8 +311,27 @@ def account(root, stats, hashes):
 # ---------------------------------------------------------------------------
 # the three explored sets
 # ---------------------------------------------------------------------------
+def nesting_depth(root):
+    """Depth of a tree through __slots__ (lists do not count as a level)."""
+    from pycparser import c_ast
+
+    best = 0
+    todo = [(root, 1)]
+    while todo:
+        x, d = todo.pop()
+        if isinstance(x, c_ast.Node):
+            best = max(best, d)
+            for s in x.__slots__:
+                if s not in ("coord", "__weakref__"):
+                    todo.append((getattr(x, s), d + 1))
+        elif isinstance(x, (list, tuple)):
+            todo.extend((e, d) for e in x)
+    return best
+
+
 def _pool_work(items):
     stats = new_stats()
+    stats["depths"] = []
     fails = []
     hashes = set()
     for origin, text in items:
@@ -316,9 +340,208 @@ def _pool_work(items):
             stats["skipped"] += 1
             continue
         account(o[1], stats, hashes)
+        try:
+            stats["depths"].append((nesting_depth(o[1]), origin, text))
+        except RecursionError:
+            pass
         for sig, det in tree_problems(o[1], stats):
             fails.append((sig, {"text": text, "origin": origin}, det))
     return stats, fails, hashes
+
+
+# ---------------------------------------------------------------------------
+# history family: an aborted repr / pickle / deepcopy, then the normal uses
+# ---------------------------------------------------------------------------
+HISTORY_OPS = ["repr", "pickle", "deepcopy"]
+UNRELATED = "struct U { int m; } uu; int unrelated(int a, char *s) { return a ? s[0] == 'c' : sizeof \"lit\"; }"
+
+
+def _op(op, tree):
+    if op == "repr":
+        return repr(tree)
+    if op == "pickle":
+        return pickle._dumps(tree, 2)  # the Python implementation: its recursion is bounded by the recursion limit
+    return copy.deepcopy(tree)
+
+
+def _frames():
+    import sys
+
+    f = sys._getframe()
+    n = 0
+    while f is not None:
+        n += 1
+        f = f.f_back
+    return n
+
+
+def _limited(op, tree, limit):
+    """True: completed, False: aborted by RecursionError (which we catch)."""
+    import sys
+
+    old = sys.getrecursionlimit()
+    try:
+        try:
+            sys.setrecursionlimit(limit)
+            _op(op, tree)
+            return True
+        except RecursionError:
+            return False
+    finally:
+        sys.setrecursionlimit(old)
+
+
+def abort_by_recursion_limit(op, tree):
+    """Run op on tree under recursion limits just below what it needs (found by
+    bisection) and half-way.  -> number of aborted runs (0: not abortable)."""
+    import sys
+
+    lo = _frames() + 8
+    hi = sys.getrecursionlimit()
+    if _limited(op, tree, lo):
+        return 0  # so shallow that it fits into the smallest settable limit
+    n = 1
+    if not _limited(op, tree, hi):
+        return n + 1  # too deep for the normal limit: that run was an aborted one as well
+    a, b = lo, hi  # fails at a, succeeds at b
+    while b - a > 1:
+        m = (a + b) // 2
+        if _limited(op, tree, m):
+            b = m
+        else:
+            a = m
+            n += 1
+    n += not _limited(op, tree, b - 1)  # just below what the tree needs
+    n += not _limited(op, tree, (lo + b) // 2)  # and half-way
+    return n
+
+
+class _Bomb:
+    """Stands in for one attribute value; every rebuild operation that reaches
+    it is interrupted (MemoryError, as when memory runs out half-way)."""
+
+    def __repr__(self):
+        raise MemoryError("interrupted")
+
+    def __reduce_ex__(self, proto):
+        raise MemoryError("interrupted")
+
+    def __deepcopy__(self, memo):
+        raise MemoryError("interrupted")
+
+
+def abort_by_interrupt(op, tree):
+    """Temporarily put a _Bomb into the last string-valued field in traversal
+    order (so the operation is far into the tree when it is interrupted), run
+    op, catch the MemoryError, restore the field.  -> 1 if aborted else 0."""
+    from pycparser import c_ast
+
+    target = None
+    todo = [tree]
+    while todo:
+        x = todo.pop(0)
+        if isinstance(x, c_ast.Node):
+            for s in x.__slots__:
+                if s in ("coord", "__weakref__"):
+                    continue
+                v = getattr(x, s)
+                if isinstance(v, str):
+                    target = (x, s, v)
+                else:
+                    todo.append(v)
+        elif isinstance(x, list):
+            todo.extend(x)
+    if target is None:
+        return 0
+    node, slot, val = target
+    setattr(node, slot, _Bomb())
+    try:
+        _op(op, tree)
+        return 0
+    except MemoryError:
+        return 1
+    except RecursionError:
+        return 1
+    finally:
+        setattr(node, slot, val)
+
+
+def _history_sig(op, sig):
+    """after-aborted-<op>:<rebuild operation>:<kind of difference>.  The place
+    (Class.field) and exception messages are dropped: what an aborted operation
+    leaves behind is not specific to a node class."""
+    if "|" in sig:
+        head, what = sig.split("|", 1)
+        op2 = head.split(":", 1)[0]
+        if not head.split(":", 1)[1]:
+            what = "raises-" + what.split(":", 1)[0]  # exception type only
+        elif "->" in what:
+            what = "becomes-" + what.split("->", 1)[1]
+        return f"after-aborted-{op}>{op2}>{what}"
+    return f"after-aborted-{op}>{sig}"
+
+
+_FIRST_BAD = []  # per process: the aborted operation after which the first failure was seen
+
+
+def history_problems(make_tree, stats, modes=("recursion-limit", "interrupt")):
+    """make_tree() -> a fresh tree (parse or build).  For each op x mode: abort
+    the op on tree A, then the ordinary comparison must hold on A, on a fresh
+    copy made the same way, on an unrelated tree, and - after A is dropped - on
+    a tree made afterwards (which may reuse A's object ids)."""
+    import gc
+
+    out = []
+    for op in HISTORY_OPS:
+        for mode in modes:
+            A = make_tree()
+            n = abort_by_recursion_limit(op, A) if mode == "recursion-limit" else abort_by_interrupt(op, A)
+            key = f"{op}/{mode}"
+            if not n:
+                stats["history_not_abortable"][key] = stats["history_not_abortable"].get(key, 0) + 1
+                continue
+            stats["history_aborted"][key] = stats["history_aborted"].get(key, 0) + n
+            stats["history_cases"] += 1
+            subjects = [("same tree", A), ("fresh tree made the same way", make_tree()),
+                        ("unrelated tree", core.parse_outcome(UNRELATED, "unrelated.c")[1])]
+            for which, t in subjects:
+                for sig, det in tree_problems(t, stats, light=True):
+                    _FIRST_BAD.append(op)
+                    out.append((_history_sig(_FIRST_BAD[0], sig), f"[{op} aborted by {mode}; checked on the {which}] {det}"))
+            # id reuse: drop A (and the other subjects), then make a tree afterwards
+            del A, subjects, t
+            gc.collect()
+            B = make_tree()
+            for sig, det in tree_problems(B, stats, light=True):
+                _FIRST_BAD.append(op)
+                out.append((_history_sig(_FIRST_BAD[0], sig), f"[{op} aborted by {mode}; checked on a tree made after the aborted one was dropped] {det}"))
+            del B
+    return out
+
+
+def _history_work(items):
+    """items: ('text', origin, text) or ('config', name, config)."""
+    sp = {s.name: s for s in astspec.read_cfg(astspec.cfg_path(core.REPO))}
+    stats = new_stats()
+    stats.update({"history_cases": 0, "history_aborted": {}, "history_not_abortable": {}, "history_subjects": 0})
+    fails = []
+    for it in items:
+        if it[0] == "text":
+            _, origin, text = it
+            if core.parse_outcome(text, "pool dir/pool.c")[0] != "ok":
+                continue
+            make = lambda text=text: core.parse_outcome(text, "pool dir/pool.c")[1]  # noqa: E731
+            case = {"text": text, "origin": origin, "history": True}
+            modes = ("recursion-limit", "interrupt")
+        else:
+            _, name, config = it
+            make = lambda name=name, config=config: build_config(sp[name], tuple(config), ATTR_MODES[0], COORD_MODES[0])  # noqa: E731
+            case = {"class": name, "config": list(config), "attr_mode": ATTR_MODES[0], "coord_mode": COORD_MODES[0], "history": True}
+            modes = ("interrupt",)
+        stats["history_subjects"] += 1
+        for sig, det in history_problems(make, stats, modes):
+            fails.append((sig, case, det))
+    return stats, fails, set()
 
 
 def literals():
@@ -425,13 +648,15 @@ def regroup(fails):
                 det = f"[at {where}] {det}"
             else:
                 sig = f"{op}:{where}:{what}" if where else f"{op}:{what}"
-        out.append((sig, case, det))
+        out.append((sig.replace(">", ":"), case, det))
     return out
 
 
 def merge_stats(acc, st):
     for k, v in st.items():
-        if isinstance(v, dict):
+        if isinstance(v, list):
+            acc.setdefault(k, []).extend(v)
+        elif isinstance(v, dict):
             d = acc.setdefault(k, {})
             for kk, vv in v.items():
                 d[kk] = d.get(kk, 0) + vv
@@ -463,7 +688,7 @@ def run(tier):
             merge_stats(st_all, st)
             collected.extend(fl)
             hs_all |= hs
-        parts[label] = {k: v for k, v in st_all.items() if k not in ("classes",)}
+        parts[label] = {k: v for k, v in st_all.items() if k not in ("classes", "depths")}
         parts[label]["distinct_trees"] = len(hs_all)
         merge_stats(total, st_all)
         allhash.update(hs_all)
@@ -481,6 +706,17 @@ def run(tier):
     big = [[p] for p in pool if len(p[1]) >= 20000]
     st_p = sweep("pool", _pool_work, big + core.chunked(small, 60))
 
+    # history family: the HISTORY_DEEPEST deepest pool trees + every configuration that has children
+    depths = sorted((d for d in st_p.get("depths", []) if len(d[2]) < HISTORY_MAX_CHARS), key=lambda d: (-d[0], len(d[2]), d[2]))
+    deepest = depths[:HISTORY_DEEPEST]
+    deepest.sort(key=lambda d: (len(d[2]), d[2]))  # smallest first again
+    hitems = [("config", s.name, list(c)) for s in sp for c in astspec.configurations(s)
+              if any(x in ("present", "[n]", "[n,n']") for x in c)]
+    n_hconf = len(hitems)
+    hitems += [("text", o, t) for _, o, t in deepest]
+    st_h = sweep("history", _history_work, core.chunked(hitems, 12))
+    total.pop("depths", None)
+
     R.fail_many(regroup(collected))
 
     feats = total.get("features", {})
@@ -488,9 +724,12 @@ def run(tier):
     cfg_names = {s.name for s in sp}
     if (st_p["trees"] < 60 or st_l["trees"] < len(lits) or st_l.get("lexable", 0) < 100
             or st_c["trees"] < len(confs) or any(feats.get(f, 0) == 0 for f in need)
-            or set(total["classes"]) != cfg_names or total["rebuilds"] < 6 * total["trees"] * 0.9):
+            or set(total["classes"]) != cfg_names or total["rebuilds"] < 6 * total["trees"] * 0.9
+            or st_h.get("history_cases", 0) < 3 * n_hconf
+            or any(st_h.get("history_aborted", {}).get(f"{op}/{m}", 0) == 0 for op in HISTORY_OPS for m in ("recursion-limit", "interrupt"))):
         R.fail("vacuous", {"pool_trees": st_p["trees"], "literal_trees": st_l["trees"], "lexable": st_l.get("lexable"),
                            "config_trees": st_c["trees"], "features": feats,
+                           "history_cases": st_h.get("history_cases", 0), "history_aborted": st_h.get("history_aborted", {}),
                            "classes_missing": sorted(cfg_names - set(total["classes"]))},
                "an explored set is empty, a special shape never occurred, or rebuilds did not happen")
     R.set("evaluations", total["rebuilds"] + total["text_comparisons"] + total["identity_checks"] + total["mutations"] + total["weakrefs"])
@@ -508,13 +747,21 @@ def run(tier):
     R.set("weakrefs_taken", total["weakrefs"])
     R.set("special_shapes", feats)
     R.set("node_classes_reached", total["classes"])
+    R.set("history_subjects", st_h.get("history_subjects", 0))
+    R.set("history_cases", st_h.get("history_cases", 0))
+    R.set("history_aborted_runs", st_h.get("history_aborted", {}))
+    R.set("history_not_abortable", st_h.get("history_not_abortable", {}))
+    R.set("history_pool_tree_depths_min_max", [min((d[0] for d in deepest), default=0), max((d[0] for d in deepest), default=0)])
     R.set("per_part", parts)
     R.set("phase_seconds", phases)
     R.set("pool_source", src)
     R.set("pool_parts", sizes)
     R.set("bounds", {"literal_alphabet": ALPHABET, "literal_body<=": MAXBODY, "prefixes": PREFIXES,
                      "pickle_protocols": PROTOCOLS, "attr_modes": ATTR_MODES, "coord_modes": COORD_MODES,
-                     "sequence_child": list(astspec.SEQ_OPTIONS), "pool": src})
+                     "sequence_child": list(astspec.SEQ_OPTIONS), "pool": src,
+                     "history": {"deepest_pool_trees": HISTORY_DEEPEST, "pool_text_below_chars": HISTORY_MAX_CHARS,
+                                 "aborted_ops": HISTORY_OPS, "abort_modes": ["recursion-limit (bisected)", "interrupt (MemoryError from a field)"],
+                                 "checked_on": ["same tree", "fresh tree", "unrelated tree", "tree made after the aborted one was dropped"]}})
     R.assumptions += [
         "an operation that hits a Python limit (RecursionError, 'too many nested parentheses' in eval) is counted in "
         "operations_skipped_python_limit, not as a pycparser failure",
@@ -528,7 +775,10 @@ def run(tier):
         "every pool AST, every string/char Constant with body <= 3 over 7 characters x 5 prefixes (hand-built and, "
         "where the lexer accepts it, parsed), every class configuration x 5 attribute modes x 3 coord modes; each "
         "rebuilt by eval(repr), pickle protocols 2..HIGHEST and deepcopy and compared structurally (with coordinates "
-        "for pickle/deepcopy), by generated text, by object identity and under mutation. evaluations = rebuilds + "
+        "for pickle/deepcopy), by generated text, by object identity and under mutation. History family: for the deepest pool trees "
+        "and every configuration with children, repr / pickle / deepcopy is first aborted midway (RecursionError under a bisected "
+        "recursion limit, MemoryError raised from a field) and caught, then the same comparison must hold on that tree, a fresh one, "
+        "an unrelated one and one made after the first was dropped. evaluations = rebuilds + "
         "text/identity/mutation/weakref comparisons; non-trivial = distinct canonical trees (with coordinates)",
     )
 
@@ -553,7 +803,19 @@ def replay(rep):
         sp = {s.name: s for s in astspec.read_cfg(astspec.cfg_path(core.REPO))}
         root = build_config(sp[c["class"]], tuple(c["config"]), c["attr_mode"], c["coord_mode"])
         print("node:", repr(root))
-    probs = [(sig, det) for sig, _, det in regroup([(sig, {}, det) for sig, det in tree_problems(root, stats)])]
+    raw = tree_problems(root, stats)
+    if c.get("history"):
+        stats.update({"history_cases": 0, "history_aborted": {}, "history_not_abortable": {}})
+        if "text" in c:
+            make = lambda: core.parse_outcome(c["text"], "pool dir/pool.c")[1]  # noqa: E731
+            modes = ("recursion-limit", "interrupt")
+        else:
+            sp = {s.name: s for s in astspec.read_cfg(astspec.cfg_path(core.REPO))}
+            make = lambda: build_config(sp[c["class"]], tuple(c["config"]), c["attr_mode"], c["coord_mode"])  # noqa: E731
+            modes = ("interrupt",)
+        raw = raw + history_problems(make, stats, modes)
+        print("aborted runs:", stats["history_aborted"])
+    probs = [(sig, det) for sig, _, det in regroup([(sig, {}, det) for sig, det in raw])]
     for p in probs:
         print("problem:", p)
     if not probs:
